@@ -416,3 +416,16 @@ def c05(run):
         celconf(["share-threads", "--seed", run.seed + k, "--n", rounds, "--threads", threads, "--per", per, "--out", t])
         validate_trace(run, "CelEvalTrace", t, nontrivial=nt,
                        what="concurrent execution: outcome differs from the same program run alone / from the specification, or the shared context changed")
+
+
+@check("C15")
+def c15(run):
+    run.rule = ("model: CelDurationMC -- Parse(Format(n)) = n and the shape of Format(n) for a boundary set and a grid of magnitudes of both signs; "
+                "impl->spec: string(d), duration(string(d)) == d for the boundary set (0, +-1ns ... +-1h, i64::MIN/MAX ns and neighbours) and log-uniform random "
+                "nanosecond counts; duration(s) for non-canonical well-formed spellings and a mutation grammar over canonical strings (trailing text, missing unit, "
+                "doubled sign, exponent, inf/nan, spaces, empty); + - and the six comparisons on every pair of the boundary set; non-trivial = non-zero duration or malformed string")
+    model_check(run, "CelDurationMC", workers=8)
+    run.exhaustive = True
+    path = drive_ops(run, "c15")
+    validate_trace(run, "CelOpTrace", path, sample_key=op_sample, nontrivial=lambda c: c["a"].get("n", {}).get("s", 1) != 0,
+                   what="duration: rendering / parsing / arithmetic / comparison differs from the exact nanosecond semantics (CelDuration)")
